@@ -329,6 +329,9 @@ def check_C11(ctx):
     ctx.exhaustive = True
     replay_samples(ctx, gp, 2)
     code_family(ctx, "c11")
+    # several rounds on one decoder: orders and surplus must not leak from one round into the next
+    replay(ctx, gp, "walks", walks=240 if not ctx.thorough else 2400, length=60)
+    free_component(ctx, roles=("dec",), runs=None if ctx.thorough else 120)
 
 
 def check_C12(ctx):
@@ -474,7 +477,7 @@ def check_C01(ctx):
         return validate_star(ctx, "Trace_Code", "Trace_Code.cfg", ctx.replay, parts=1)
     algo_models(ctx, "dec")
     code_family(ctx, "c01", what="decode round")
-    history_component(ctx, roles=("dec",))
+    history_component(ctx)
 
 
 def check_C13(ctx):
@@ -577,6 +580,7 @@ def check_C09(ctx):
     gp, nn, ne = codec_graph(ctx, "dec", "rs")
     replay(ctx, gp, "walks", walks=120, length=40, engines=["default"])
     oneshot_cases(ctx, maxshards=2 if not ctx.thorough else 3)
+    history_component(ctx, walks=120 if not ctx.thorough else 1200)
 
 
 # ======================================================================
